@@ -1,4 +1,5 @@
 //@ unit kdtree
+//@ rlimit 80
 //@ props C13
 //@ source src/image.rs
 #![allow(unused_imports, dead_code, unused_variables, unused_mut)]
@@ -13,6 +14,26 @@ pub assume_specification[ i32::pow ](base: i32, exp: u32) -> (r: i32)
     ensures r == base * base;
 
 //@ item struct KDNode
+//@ item struct KDTree
+//@ item struct ColorPalette
+
+// N18: the dependency type rasterize::RGBA is replaced by an opaque stand-in carrying only the contract of the
+// constructor and accessor the extracted functions use
+#[verifier::external_body]
+#[derive(Clone, Copy)]
+pub struct RGBA { v: [u8; 4] }
+impl RGBA {
+    pub uninterp spec fn rgb(&self) -> [u8; 3];
+    pub uninterp spec fn alpha(&self) -> u8;
+    #[verifier::external_body]
+    pub fn new(r: u8, g: u8, b: u8, a: u8) -> (c: RGBA)
+        ensures c.rgb()@ == seq![r, g, b], c.alpha() == a,
+    { RGBA { v: [r, g, b, a] } }
+    #[verifier::external_body]
+    pub fn to_rgb(self) -> (r: [u8; 3])
+        ensures r == self.rgb(),
+    { [self.v[0], self.v[1], self.v[2]] }
+}
 
 // ---------------------------------------------------------------- specification
 pub open spec fn sq(x: int) -> int { x * x }
@@ -94,6 +115,300 @@ proof fn lemma_far_side(tk: int, ck: int, xk: int)
 //@+     forall|j: int| in_sub(nodes@, index as int, j) ==> r.1 <= d2(target, #[trigger] nodes@[j].color),
 //@+ decreases index,
 //@proof after:/let\sother_dist\s=/ proof { if other_dist >= guess_dist && other is Some { let o = other->Some_0 as int; let dim = node.dim as int; assert forall|j: int| in_sub(nodes@, o, j) implies guess_dist <= d2(target, #[trigger] nodes@[j].color) by { lemma_d2_lower(target, nodes@[j].color, dim); lemma_far_side(target[dim] as int, node.color[dim] as int, nodes@[j].color[dim] as int); } } }
+
+// ---------------------------------------------------------------- construction establishes the invariant
+// `in_sub` / `kd_wf` of a subtree only look at nodes up to its root: pushing more nodes changes nothing
+spec fn prefix_eq(a: Seq<KDNode>, b: Seq<KDNode>, n: int) -> bool {
+    n <= a.len() && n <= b.len() && forall|k: int| 0 <= k < n ==> a[k] == b[k]
+}
+proof fn lemma_in_sub_prefix(a: Seq<KDNode>, b: Seq<KDNode>, i: int, j: int)
+    requires prefix_eq(a, b, i + 1),
+    ensures in_sub(a, i, j) == in_sub(b, i, j),
+    decreases i,
+{
+    if 0 <= i {
+        assert(a[i] == b[i]);
+        if a[i].left is Some && (a[i].left->Some_0 as int) < i { lemma_in_sub_prefix(a, b, a[i].left->Some_0 as int, j); }
+        if a[i].right is Some && (a[i].right->Some_0 as int) < i { lemma_in_sub_prefix(a, b, a[i].right->Some_0 as int, j); }
+    }
+}
+proof fn lemma_kd_wf_prefix(a: Seq<KDNode>, b: Seq<KDNode>, i: int)
+    requires prefix_eq(a, b, i + 1),
+    ensures kd_wf(a, i) == kd_wf(b, i),
+    decreases i,
+{
+    if 0 <= i {
+        assert(a[i] == b[i]);
+        let dim = a[i].dim as int;
+        if a[i].left is Some && (a[i].left->Some_0 as int) < i {
+            let l = a[i].left->Some_0 as int;
+            lemma_kd_wf_prefix(a, b, l);
+            assert forall|j: int| in_sub(a, l, j) == in_sub(b, l, j) by { lemma_in_sub_prefix(a, b, l, j); }
+            assert forall|j: int| in_sub(a, l, j) implies a[j] == b[j] by { lemma_in_sub_range(a, l, j); }
+        }
+        if a[i].right is Some && (a[i].right->Some_0 as int) < i {
+            let r = a[i].right->Some_0 as int;
+            lemma_kd_wf_prefix(a, b, r);
+            assert forall|j: int| in_sub(a, r, j) == in_sub(b, r, j) by { lemma_in_sub_prefix(a, b, r, j); }
+            assert forall|j: int| in_sub(a, r, j) implies a[j] == b[j] by { lemma_in_sub_range(a, r, j); }
+        }
+    }
+}
+proof fn lemma_in_tree_prefix(a: Seq<KDNode>, b: Seq<KDNode>, i: int, e: (usize, [u8; 3]))
+    requires prefix_eq(a, b, i + 1),
+    ensures in_tree(a, i, e) == in_tree(b, i, e),
+{
+    assert forall|j: int| in_sub(a, i, j) == in_sub(b, i, j) by { lemma_in_sub_prefix(a, b, i, j); }
+    assert forall|j: int| in_sub(a, i, j) implies a[j] == b[j] by { lemma_in_sub_range(a, i, j); }
+    if in_tree(a, i, e) { let j = choose|j: int| in_sub(a, i, j) && e == entry(a[j]); assert(in_sub(b, i, j) && e == entry(b[j])); }
+    if in_tree(b, i, e) { let j = choose|j: int| in_sub(b, i, j) && e == entry(b[j]); lemma_in_sub_range(b, i, j); assert(in_sub(a, i, j) && e == entry(a[j])); }
+}
+
+// entries (palette index, colour) held by the subtree rooted at i
+// the palette entry a node stands for (the only place the node's index field is read: everything below speaks of entries)
+spec fn entry(n: KDNode) -> (usize, [u8; 3]) { (n.color_index as usize, n.color) }
+spec fn in_tree(nodes: Seq<KDNode>, i: int, e: (usize, [u8; 3])) -> bool {
+    exists|j: int| in_sub(nodes, i, j) && e == entry(nodes[j])
+}
+spec fn in_opt_tree(nodes: Seq<KDNode>, c: Option<usize>, e: (usize, [u8; 3])) -> bool {
+    match c { Some(k) => in_tree(nodes, k as int, e), None => false }
+}
+// the subtree holds exactly the entries of the slice
+spec fn holds(nodes: Seq<KDNode>, i: int, cs: Seq<(usize, [u8; 3])>) -> bool {
+    forall|e: (usize, [u8; 3])| in_tree(nodes, i, e) <==> cs.contains(e)
+}
+spec fn same_entries(a: Seq<(usize, [u8; 3])>, b: Seq<(usize, [u8; 3])>) -> bool {
+    a.len() == b.len() && forall|e: (usize, [u8; 3])| a.contains(e) <==> b.contains(e)
+}
+spec fn sorted_by(cs: Seq<(usize, [u8; 3])>, dim: int) -> bool {
+    forall|a: int, b: int| 0 <= a <= b < cs.len() ==> cs[a].1[dim] <= cs[b].1[dim]
+}
+
+// a node's entries = its own entry + those of its two children
+proof fn lemma_in_tree_unfold(nodes: Seq<KDNode>, i: int, e: (usize, [u8; 3]))
+    requires 0 <= i < nodes.len(),
+        nodes[i].left matches Some(l) ==> (l as int) < i,
+        nodes[i].right matches Some(r) ==> (r as int) < i,
+    ensures in_tree(nodes, i, e) <==> (e == entry(nodes[i]) || in_opt_tree(nodes, nodes[i].left, e) || in_opt_tree(nodes, nodes[i].right, e)),
+{
+    if in_tree(nodes, i, e) {
+        let j = choose|j: int| in_sub(nodes, i, j) && e == entry(nodes[j]);
+        if j != i {
+            if nodes[i].left is Some && in_sub(nodes, nodes[i].left->Some_0 as int, j) {
+                assert(in_tree(nodes, nodes[i].left->Some_0 as int, e));
+            } else {
+                assert(in_sub(nodes, nodes[i].right->Some_0 as int, j));
+                assert(in_tree(nodes, nodes[i].right->Some_0 as int, e));
+            }
+        }
+    }
+    if e == entry(nodes[i]) {
+        assert(in_sub(nodes, i, i));
+    }
+    if in_opt_tree(nodes, nodes[i].left, e) {
+        let j = choose|j: int| in_sub(nodes, nodes[i].left->Some_0 as int, j) && e == entry(nodes[j]);
+        assert(in_sub(nodes, i, j));
+    }
+    if in_opt_tree(nodes, nodes[i].right, e) {
+        let j = choose|j: int| in_sub(nodes, nodes[i].right->Some_0 as int, j) && e == entry(nodes[j]);
+        assert(in_sub(nodes, i, j));
+    }
+}
+
+proof fn lemma_contains_split(c: Seq<(usize, [u8; 3])>, index: int, e: (usize, [u8; 3]))
+    requires 0 <= index < c.len(),
+    ensures c.contains(e) <==> (c.subrange(0, index).contains(e) || e == c[index] || c.subrange(index + 1, c.len() as int).contains(e)),
+{
+    let l = c.subrange(0, index);
+    let r = c.subrange(index + 1, c.len() as int);
+    if c.contains(e) {
+        let m = choose|m: int| 0 <= m < c.len() && c[m] == e;
+        if m < index { assert(l[m] == e); } else if m > index { assert(r[m - index - 1] == e); }
+    }
+    if l.contains(e) { let m = choose|m: int| 0 <= m < l.len() && l[m] == e; assert(c[m] == e); }
+    if r.contains(e) { let m = choose|m: int| 0 <= m < r.len() && r[m] == e; assert(c[m + index + 1] == e); }
+}
+
+
+// putting the node on top of the two recursively built subtrees gives a well-formed k-d (sub)tree over the slice
+proof fn lemma_assemble(n1: Seq<KDNode>, n2: Seq<KDNode>, n3: Seq<KDNode>, sorted: Seq<(usize, [u8; 3])>, c2: Seq<(usize, [u8; 3])>,
+                        index: int, dim: int, left: Option<usize>, right: Option<usize>)
+    requires
+        0 <= dim < 3, sorted.len() == c2.len(), 1 <= index < sorted.len(),
+        sorted_by(sorted, dim),
+        same_entries(sorted.subrange(0, index), c2.subrange(0, index)),
+        same_entries(sorted.subrange(index + 1, sorted.len() as int), c2.subrange(index + 1, c2.len() as int)),
+        c2[index] == sorted[index],
+        n1.len() >= 1, left == Some((n1.len() - 1) as usize), kd_wf(n1, n1.len() - 1), holds(n1, n1.len() - 1, c2.subrange(0, index)),
+        prefix_eq(n1, n2, n1.len() as int),
+        if index + 1 == c2.len() { right is None && n2.len() == n1.len() }
+        else { n2.len() > n1.len() && right == Some((n2.len() - 1) as usize) && kd_wf(n2, n2.len() - 1) && holds(n2, n2.len() - 1, c2.subrange(index + 1, c2.len() as int)) },
+        n2.len() < usize::MAX,
+        n3.len() == n2.len() + 1, prefix_eq(n2, n3, n2.len() as int),
+        entry(n3[n3.len() - 1]) == c2[index], n3[n3.len() - 1].dim == dim, n3[n3.len() - 1].left == left, n3[n3.len() - 1].right == right,
+    ensures
+        kd_wf(n3, n3.len() - 1), holds(n3, n3.len() - 1, c2), same_entries(sorted, c2),
+{
+    let k = n3.len() - 1;
+    let l = n1.len() - 1;
+    let len = c2.len() as int;
+    let node = n3[k];
+    let cl = c2.subrange(0, index);
+    let cr = c2.subrange(index + 1, len);
+    let sl = sorted.subrange(0, index);
+    let sr = sorted.subrange(index + 1, len);
+    assert(prefix_eq(n1, n3, l + 1));
+    lemma_kd_wf_prefix(n1, n3, l);
+    // left subtree: entries come from cl, hence from sl, hence are <= the pivot
+    assert forall|j: int| in_sub(n3, l, j) implies #[trigger] n3[j].color[dim] <= node.color[dim] by {
+        lemma_in_sub_prefix(n1, n3, l, j);
+        lemma_in_sub_range(n1, l, j);
+        assert(n3[j] == n1[j]);
+        let e = entry(n1[j]);
+        assert(in_tree(n1, l, e));
+        assert(cl.contains(e));
+        assert(sl.contains(e));
+        let m = choose|m: int| 0 <= m < sl.len() && sl[m] == e;
+        assert(sorted[m] == e);
+    }
+    if index + 1 < len {
+        let r = n2.len() - 1;
+        assert(prefix_eq(n2, n3, r + 1));
+        lemma_kd_wf_prefix(n2, n3, r);
+        assert forall|j: int| in_sub(n3, r, j) implies #[trigger] n3[j].color[dim] >= node.color[dim] by {
+            lemma_in_sub_prefix(n2, n3, r, j);
+            lemma_in_sub_range(n2, r, j);
+            assert(n3[j] == n2[j]);
+            let e = entry(n2[j]);
+            assert(in_tree(n2, r, e));
+            assert(cr.contains(e));
+            assert(sr.contains(e));
+            let m = choose|m: int| 0 <= m < sr.len() && sr[m] == e;
+            assert(sorted[m + index + 1] == e);
+        }
+    }
+    assert(kd_wf(n3, k));
+    // the tree holds exactly c2
+    assert forall|e: (usize, [u8; 3])| in_tree(n3, k, e) <==> c2.contains(e) by {
+        lemma_in_tree_unfold(n3, k, e);
+        lemma_contains_split(c2, index, e);
+        lemma_in_tree_prefix(n1, n3, l, e);
+        if index + 1 < len { lemma_in_tree_prefix(n2, n3, n2.len() - 1, e); }
+        else { assert(cr.len() == 0); }
+    }
+    // and c2 has the entries of the sorted slice
+    assert forall|e: (usize, [u8; 3])| sorted.contains(e) <==> c2.contains(e) by {
+        lemma_contains_split(sorted, index, e);
+        lemma_contains_split(c2, index, e);
+    }
+}
+
+// N8: `colors.sort_by_key(|(_, c)| c[dim])` routed through the documented contract of a sort: the slice becomes a
+// rearrangement of itself, ordered by the key (stability is not needed)
+#[verifier::external_body]
+fn sort_colors_by_dim(colors: &mut [(usize, [u8; 3])], dim: usize)
+    requires dim < 3,
+    ensures sorted_by(final(colors)@, dim as int), same_entries(old(colors)@, final(colors)@),
+{
+    colors.sort_by_key(|(_, c)| c[dim]);
+}
+
+//@ fn impl KDTree :: build_rec ret=r
+//@+ requires dim < 3, old(nodes)@.len() + old(colors)@.len() <= usize::MAX,
+//@+ ensures
+//@+     final(nodes)@.len() == old(nodes)@.len() + old(colors)@.len(),
+//@+     forall|k: int| 0 <= k < old(nodes)@.len() ==> final(nodes)@[k] == old(nodes)@[k],
+//@+     same_entries(old(colors)@, final(colors)@),
+//@+     old(colors)@.len() == 0 ==> r is None,
+//@+     old(colors)@.len() > 0 ==> (r == Some((final(nodes)@.len() - 1) as usize)
+//@+         && kd_wf(final(nodes)@, final(nodes)@.len() - 1)
+//@+         && holds(final(nodes)@, final(nodes)@.len() - 1, final(colors)@)),
+//@+ decreases old(colors)@.len(),
+//@subst N4 slice patterns `[]` / `[x]` replaced by length tests /match colors \{\s*\[\] => return None,\s*\[\(color_index, color\)\] => \{/if colors.len() == 0 { return None; } if colors.len() == 1 { let color_index = &colors[0].0; let color = &colors[0].1; {/
+//@subst N4 slice patterns (tail of the rewritten match) /return Some\(nodes\.len\(\) - 1\);\s*\}\s*_ => \(\),\s*\}/return Some(nodes.len() - 1); } }/
+//@subst N8 sort_by_key routed through the sort contract /colors\.sort_by_key\(\|\(_, c\)\| c\[dim\]\);/sort_colors_by_dim(colors, dim);/
+//@proof before:/return\sSome/ proof { let k = nodes@.len() - 1; assert(colors@.len() == 1); assert forall|e: (usize, [u8; 3])| in_tree(nodes@, k, e) <==> colors@.contains(e) by { lemma_in_tree_unfold(nodes@, k, e); if e == colors@[0] { assert(colors@.contains(e)); } } }
+//@proof before:/let\sindex\s=/ let ghost c0 = old(colors)@; let ghost sorted = colors@; let ghost n0 = nodes@;
+//@proof after:/let\sleft\s=/ let ghost n1 = nodes@; let ghost c1 = colors@; proof { assert(c1.len() == sorted.len()); assert(c1[index as int] == sorted[index as int]); assert(c1.subrange(index + 1, c1.len() as int) =~= sorted.subrange(index + 1, c1.len() as int)); assert(same_entries(sorted.subrange(0, index as int), c1.subrange(0, index as int))); }
+//@proof after:/let\sright\s=/ let ghost n2 = nodes@; let ghost c2 = colors@; proof { let len = c2.len() as int; assert(c2.len() == sorted.len()); assert(c2[index as int] == sorted[index as int]); assert(c2.subrange(0, index as int) =~= c1.subrange(0, index as int)); assert(same_entries(sorted.subrange(index + 1, len), c2.subrange(index + 1, len))); assert(prefix_eq(n1, n2, n1.len() as int)); }
+//@proof before:/(?m)^\s*Some\(nodes\.len\(\)\s-\s1\)\s*$/ proof { lemma_assemble(n1, n2, nodes@, sorted, c2, index as int, dim as int, left, right); assert forall|e: (usize, [u8; 3])| c0.contains(e) <==> colors@.contains(e) by { } }
+
+// ---------------------------------------------------------------- palette = tree
+// N8: `colors.iter().map(|c| c.to_rgb()).enumerate().collect()` routed through the contract of that adapter chain
+#[verifier::external_body]
+fn enumerate_rgb(colors: &[RGBA]) -> (r: Vec<(usize, [u8; 3])>)
+    ensures r@.len() == colors@.len(), forall|k: int| 0 <= k < colors@.len() ==> #[trigger] r@[k] == (k as usize, colors@[k].rgb()),
+{
+    colors.iter().map(|c| c.to_rgb()).enumerate().collect()
+}
+
+spec fn pal_entry(colors: Seq<RGBA>, k: int) -> (usize, [u8; 3]) { (k as usize, colors[k].rgb()) }
+spec fn in_pal(colors: Seq<RGBA>, e: (usize, [u8; 3])) -> bool { exists|k: int| 0 <= k < colors.len() && e == #[trigger] pal_entry(colors, k) }
+
+// the tree rooted at the last node holds exactly the palette entries (index, rgb) and is a well-formed k-d tree
+spec fn tree_of(nodes: Seq<KDNode>, colors: Seq<RGBA>) -> bool {
+    &&& nodes.len() == colors.len() <= usize::MAX
+    &&& colors.len() > 0 ==> kd_wf(nodes, nodes.len() - 1)
+    &&& forall|e: (usize, [u8; 3])| in_tree(nodes, nodes.len() - 1, e) <==> in_pal(colors, e)
+}
+
+proof fn lemma_tree_palette(nodes: Seq<KDNode>, colors: Seq<RGBA>)
+    requires tree_of(nodes, colors), colors.len() > 0,
+    ensures
+        forall|j: int| in_sub(nodes, nodes.len() - 1, j) ==> 0 <= (#[trigger] entry(nodes[j])).0 < colors.len() && nodes[j].color == colors[entry(nodes[j]).0 as int].rgb(),
+        forall|k: int| 0 <= k < colors.len() ==> exists|j: int| in_sub(nodes, nodes.len() - 1, j) && #[trigger] colors[k].rgb() == nodes[j].color,
+{
+    let root = nodes.len() - 1;
+    assert forall|j: int| in_sub(nodes, root, j) implies 0 <= (#[trigger] entry(nodes[j])).0 < colors.len() && nodes[j].color == colors[entry(nodes[j]).0 as int].rgb() by {
+        let e = entry(nodes[j]);
+        assert(in_tree(nodes, root, e));
+        assert(in_pal(colors, e));
+        let k = choose|k: int| 0 <= k < colors.len() && e == pal_entry(colors, k);
+    }
+    assert forall|k: int| 0 <= k < colors.len() implies exists|j: int| in_sub(nodes, root, j) && #[trigger] colors[k].rgb() == nodes[j].color by {
+        let e = pal_entry(colors, k);
+        assert(in_pal(colors, e));
+        assert(in_tree(nodes, root, e));
+        let j = choose|j: int| in_sub(nodes, root, j) && e == entry(nodes[j]);
+        assert(in_sub(nodes, root, j) && colors[k].rgb() == nodes[j].color);
+    }
+}
+
+impl KDTree {
+//@ fn impl KDTree :: new ret=t vis=strip
+//@+ ensures tree_of(t.nodes@, colors@),
+//@subst N5 nested fn extracted separately (above) /fn build_rec\([\s\S]*?(?=let mut nodes = Vec::new)//
+//@subst N8 iterator adapter chain routed through its contract /let mut colors: Vec<_> = colors\.iter\(\)\.map\(\|c\| c\.to_rgb\(\)\)\.enumerate\(\)\.collect\(\);/let ghost pal = colors@; let mut colors: Vec<(usize, [u8; 3])> = enumerate_rgb(colors); let ghost c0 = colors@; proof { assert(c0.len() == colors.len()); }/
+//@proof before:/Self\s\{\snodes\s\}/ proof { let root = nodes@.len() - 1; assert forall|e: (usize, [u8; 3])| in_tree(nodes@, root, e) <==> in_pal(pal, e) by { if c0.contains(e) { let k = choose|k: int| 0 <= k < c0.len() && c0[k] == e; assert(e == pal_entry(pal, k)); } if in_pal(pal, e) { let k = choose|k: int| 0 <= k < pal.len() && e == pal_entry(pal, k); assert(c0[k] == e); } if pal.len() == 0 { assert(!in_tree(nodes@, root, e)); } } }
+
+//@ fn impl KDTree :: find ret=r vis=strip
+//@+ requires self.nodes@.len() > 0, kd_wf(self.nodes@, self.nodes@.len() - 1),
+//@+ ensures
+//@+     exists|j: int| in_sub(self.nodes@, self.nodes@.len() - 1, j) && r.0 == entry(self.nodes@[j]).0 && r.1.rgb()@ == self.nodes@[j].color@
+//@+         && forall|i: int| in_sub(self.nodes@, self.nodes@.len() - 1, i) ==> d2(color.rgb(), self.nodes@[j].color) <= d2(color.rgb(), #[trigger] self.nodes@[i].color),
+//@+     r.1.alpha() == 255,
+//@subst N5 nested fns extracted separately (above) /fn dist\(rgb[\s\S]*?(?=let node = find_rec)//
+//@subst N4 array pattern replaced by indexed lets /let \[r, g, b\] = node\.color;/let r = node.color[0]; let g = node.color[1]; let b = node.color[2];/
+//@subst N13 slice borrow of the node vector made explicit /find_rec\(&self\.nodes,/find_rec(self.nodes.as_slice(),/
+
+}
+
+impl ColorPalette {
+    spec fn wf(&self) -> bool { self.colors@.len() > 0 && tree_of(self.kdtree.nodes@, self.colors@) }
+
+//@ fn impl ColorPalette :: new ret=r vis=strip
+//@+ ensures
+//@+     colors@.len() == 0 ==> r is None,
+//@+     colors@.len() > 0 ==> r is Some && r->Some_0.wf() && r->Some_0.colors@ == colors@,
+
+//@ fn impl ColorPalette :: find ret=r vis=strip
+//@+ requires self.wf(),
+//@+ ensures
+//@+     r.0 < self.colors@.len(),
+//@+     r.1.rgb()@ == self.colors@[r.0 as int].rgb()@, r.1.alpha() == 255,
+//@+     forall|k: int| 0 <= k < self.colors@.len() ==> d2(color.rgb(), self.colors@[r.0 as int].rgb()) <= d2(color.rgb(), #[trigger] self.colors@[k].rgb()),
+//@proof start proof { lemma_tree_palette(self.kdtree.nodes@, self.colors@); }
+}
 
 } // verus!
 
